@@ -188,6 +188,9 @@ class Network:
                 return
             if any(address in self.blacklist for address in peer.addresses.values()):
                 return
+            # The service caches may lack this peer or hold an unverified instance of it
+            for service in self.services_per_peer.get(peer.public_key.key_to_bin(), ()):
+                self.reverse_service_lookup.pop(service, None)
             if any(address in self._all_addresses for address in peer.addresses.values()):
                 if peer not in self.verified_peers:
                     # This should always happen, unless someone edits the verified_peers dict directly.
